@@ -280,37 +280,73 @@ def r2_complete(ctx) -> None:
 
 
 def r3_two_sided(ctx) -> None:
+    """stated over path summaries (helpers seen through, locals substituted): on every path that does not raise, evaluates
+    seq[i] for a parameter i and has tested i against len(seq) from above, the tests on the path also bound i from below
+    (i >= 0, or i >= -len(seq) where negative indexing is meant).  Decided with linear constraints (hv/lin.py)."""
+    from ..core import AnalysisError
+    from ..canon import NoCanon
+    from ..lin import Lin, constraint, implies
+    from ..paths import PathBound, summaries
     prog = ctx.program
     n = 0
     for mn, m in prog.modules.items():
         if not (mn.startswith("hugr.build") or mn in ("hugr.ops", "hugr.hugr.node_port")):
             continue
-        for fn in [x for x in ast.walk(m.tree) if isinstance(x, ast.FunctionDef)]:
-            params = {a.arg for a in fn.args.args}
-            for t in [x for x in ast.walk(fn) if isinstance(x, ast.If)]:
-                if not any(isinstance(s, ast.Raise) for s in t.body):
+        fns = [(None, x) for x in m.tree.body if isinstance(x, ast.FunctionDef)]
+        for c in [x for x in m.tree.body if isinstance(x, ast.ClassDef)]:
+            fns += [(c, x) for x in c.body if isinstance(x, ast.FunctionDef)]
+        for c, fn in fns:
+            params = {a.arg for a in fn.args.args + fn.args.kwonlyargs} - {"self", "cls"}
+            if not params or not any(isinstance(x, ast.Call) and u(x.func) == "len" for x in ast.walk(fn)) or not any(isinstance(x, ast.Subscript) for x in ast.walk(fn)):
+                continue
+            qual = f"{mn}.{c.name + '.' if c else ''}{fn.name}"
+            try:
+                paths = summaries(ctx.cfn(qual, subst=False).body, 256)
+            except (PathBound, NoCanon, AnalysisError) as e:
+                ctx.note(f"C13.R3 {qual}: not summarised ({str(e)[:80]})")
+                continue
+            sites = {}
+            for p in paths:
+                if p.kind == "raise":
                     continue
-                c = t.test
-                # recognise  idx >= len(X) / idx > len(X) - 1 / not 0 <= idx < len(X) / idx < 0 or idx >= len(X)
-                subj = None
-                seq = None
-                two_sided = False
-                for cmp_ in [x for x in ast.walk(c) if isinstance(x, ast.Compare)]:
-                    names = [x for x in [cmp_.left] + cmp_.comparators if isinstance(x, ast.Name) and x.id in params]
-                    lens = [x for x in [cmp_.left] + cmp_.comparators if isinstance(x, ast.Call) and u(x.func) == "len"]
-                    if names and lens:
-                        subj, seq = names[0].id, u(lens[0].args[0])
-                if subj is None:
-                    continue
-                txt = u(c)
-                two_sided = (f"{subj} < 0" in txt or f"0 <= {subj}" in txt or f"0 > {subj}" in txt or f"{subj} >= 0" in txt or f"-len({seq})" in txt or f"{subj} < -" in txt)
-                used = [s for s in ast.walk(fn) if isinstance(s, ast.Subscript) and u(s.value) == seq and u(s.slice) == subj]
-                if not used:
-                    continue
+                nodes = [x for e in list(p.effects) + [t for t, _ in p.tests] + ([p.value] if p.value is not None else []) for x in ast.walk(e)]
+                for sub in nodes:
+                    if not (isinstance(sub, ast.Subscript) and isinstance(sub.slice, ast.Name) and sub.slice.id in params):
+                        continue
+                    subj, seq = sub.slice.id, u(sub.value)
+
+                    def atom(e, subj=subj, seq=seq):
+                        if isinstance(e, ast.Name) and e.id == subj:
+                            return Lin.sym("i")
+                        if isinstance(e, ast.Call) and u(e.func) == "len" and len(e.args) == 1 and u(e.args[0]) == seq:
+                            return Lin.sym("n")
+                        return None
+                    cons = []
+                    for t, k in p.tests:
+                        parts = [(t, k)]
+                        if isinstance(t, ast.Compare) and len(t.ops) > 1 and k:
+                            xs = [t.left] + list(t.comparators)
+                            parts = [(ast.Compare(left=xs[j], ops=[t.ops[j]], comparators=[xs[j + 1]]), True) for j in range(len(t.ops))]
+                        if isinstance(t, ast.Compare) and len(t.ops) == 1 and isinstance(t.ops[0], (ast.In, ast.NotIn)) and u(t.comparators[0]) == f"range(len({seq}))" \
+                                and isinstance(t.left, ast.Name) and t.left.id == subj and k == isinstance(t.ops[0], ast.In):
+                            cons += [Lin.sym("i"), Lin.sym("n") - Lin.sym("i") - 1]
+                            continue
+                        for t2, k2 in parts:
+                            cs = constraint(t2, k2, atom)
+                            if cs:
+                                cons += cs
+                    upper = implies(cons, Lin.sym("n") - Lin.sym("i") - 1)
+                    if not upper:
+                        continue
+                    lower = implies(cons, Lin.sym("i")) or implies(cons, Lin.sym("i") + Lin.sym("n"))
+                    key = (subj, seq)
+                    prev = sites.get(key)
+                    sites[key] = (prev[0] and lower if prev else lower, p if not lower and (prev is None or prev[0]) else (prev[1] if prev else p))
+            for (subj, seq), (ok, p) in sorted(sites.items()):
                 n += 1
-                ctx.check(two_sided, "C13.R3", f"{mn}.{fn.name}: range guard on {subj}", m.path, t.lineno,
-                          f"`{subj}` is only bounded above (`{txt}`) before it indexes `{seq}`: a negative index passes the guard and Python's negative "
-                          "indexing silently selects an element from the end instead of raising the documented error", t, detail=txt)
+                ctx.check(ok, "C13.R3", f"{mn}.{fn.name}: range guard on {subj}", m.path, fn.lineno,
+                          f"`{subj}` is only bounded above before it indexes `{seq}`: a negative index passes the guard and Python's negative "
+                          "indexing silently selects an element from the end instead of raising the documented error", fn, detail=p.describe()[:300])
     ctx.stats["C13.R3 range guards followed by a subscript"] = n
 
 
